@@ -186,6 +186,11 @@ def check(case, rec):
       rec.inconclusive += 1
       rec.cls("discarded:nonfinite")
       return
+    if float(np.max(np.abs(D.qvel.numpy()), initial=0.0)) > 1e4 or float(np.max(np.abs(D.qacc.numpy()), initial=0.0)) > 1e8:
+      # numerically exploded simulation (thorough tier: qvel ~ 1e6 after one RK4 step): every round-off difference is amplified without bound, nothing to judge
+      rec.inconclusive += 1
+      rec.cls("discarded:exploded")
+      return
     for w in range(n):
       rec.ev()
       solo = snapshot(m, S[w], 0)
